@@ -422,7 +422,8 @@ H(h_law_ring_2, law_ring<2, 2, 2, 2>()) H(h_law_ring_3, law_ring<3, 3, 3, 3>()) 
 //@harness h_law_ring_{D} for D in 2,3,2x3x2x2,3x2x4x3 tier=quick loop=400 som=1
 //@harness h_law_ring_4 tier=quick loop=400 som=1
 H(h_law_det_2, law_det<2>()) H(h_law_det_3, law_det<3>()) H(h_law_det_4, law_det<4>())
-//@harness h_law_det_{N} for N in 2,3,4 tier=quick loop=400 som=1
+//@harness h_law_det_{N} for N in 2,3 tier=quick loop=400 som=1
+//@harness h_law_det_4 tier=thorough loop=400 som=1
 H(h_law_adj_product_2, law_adj_product<2>()) H(h_law_adj_product_3, law_adj_product<3>()) H(h_law_adj_product_4, law_adj_product<4>())
 //@harness h_law_adj_product_{N} for N in 2,3 tier=quick loop=400 som=1
 //@harness h_law_adj_product_4 tier=thorough loop=400 som=1 wall=1500
